@@ -584,6 +584,13 @@ def c29(run):
     run.validate("Trace_Graph.tla", ["C29"], t2, "isomarks-graph")
     run.validate("Trace_Interp.tla", ["C29"], t2, "isomarks-interp")
     count_nontrivial(run, t2, has_iso)
+    # isolated transactions on conflicted registers (counters, increments, overwrites), observed also through the
+    # iterator reads (list_range / map_range / values), which go through the top index
+    t3 = os.path.join(run.work, "isoconf.ndjson")
+    drive(["isoconf", run.seed, sizes(run, 120, 3000), t3])
+    run.validate("Trace_Interp.tla", ["C29"], t3, "isoconf-interp")
+    run.validate("Trace_Seq.tla", ["C29"], t3, "isoconf-seq")
+    count_nontrivial(run, t3, has_iso)
 
 
 def has_err(sc):
@@ -712,6 +719,87 @@ def c26(run):
     rich_trace(run, "cursortext", sizes(run, 100, 2500), [("Trace_Interp.tla", ["C26"])], has_cursor_of_deleted)
 
 
+def has_foreign_id(sc):
+    return any(e.get('ev') == 'idprobe' and any(r['ty'] == 'err' for x in e['list'] for r in x['results']) and
+               any(r['ty'] != 'err' for x in e['list'] for r in x['results']) for e in sc)
+
+
+def c30(run):
+    run.cov["rule"] = ("histories in which every new actor sorts BEFORE the existing ones (actor bytes descending), so actor "
+                       "tables shift on every merge/load; object ids are captured as live values on random replicas at random "
+                       "points and later used on every replica - as captured (stale actor-index hint), with perturbed hints, "
+                       "after to_bytes/try_from and through the string form - for object_type/keys/length/text and for one "
+                       "edit; the outcome must be that of the object with this op id in the replica's own history "
+                       "(OpSet!ObjView), or an error/empty result when the replica lacks it; all edits of the programs "
+                       "themselves use ids rebuilt with hint 0; non-trivial = scenario in which some id was unknown to one "
+                       "replica and known to another")
+    t = os.path.join(run.work, "ids.ndjson")
+    drive(["ids", run.seed, sizes(run, 150, 4000), t])
+    run.validate("Trace_Interp.tla", ["C30"], t, "ids")
+    run.validate("Trace_Seq.tla", ["C03"], t, "ids-calls")
+    count_nontrivial(run, t, has_foreign_id)
+    sample_scenario(run, t, has_foreign_id, maxlen=6)
+
+
+def has_string_conflict(sc):
+    for e in sc:
+        if e.get('ev') == 'migrate' and e.get('added'):
+            for o in e['obs']['view']:
+                for x in (o.get('ents') or []) + (o.get('elems') or []):
+                    ks = [v['v']['k'] for v in x['vals']]
+                    if 'str' in ks and len(ks) > 1:
+                        return True
+    return False
+
+
+def c40(run):
+    run.cov["rule"] = ("string-rich histories (strings incl. empty and multi-unit ones in map keys and list elements, in "
+                       "conflicted registers next to counters/objects/other strings, deleted strings, strings inside nested and "
+                       "deleted objects) by 2-3 replicas; every replica's save is loaded with StringMigration::ConvertToText: "
+                       "at most one change is added on top of the heads, none when no string is visible; the migrated "
+                       "document is the interpretation of history + that change; each register with visible strings holds "
+                       "exactly one text object whose content is the highest-id string, every other register keeps its ops, "
+                       "no visible string is left; non-trivial = scenario with a string in a conflicted register")
+    t = os.path.join(run.work, "migrate.ndjson")
+    drive(["migrate", run.seed, sizes(run, 150, 4000), t])
+    run.validate("Trace_Interp.tla", ["C40"], t, "migrate")
+    count_nontrivial(run, t, has_string_conflict)
+    sample_scenario(run, t, has_string_conflict, maxlen=4)
+
+
+def has_invalid_accepting(sc):
+    return any(e.get('ev') == 'badcall' for e in sc)
+
+
+C37_FAMILIES = [("graph", 60, 1500), ("dup", 60, 1500), ("doc", 60, 1500), ("doctext", 40, 1000), ("docinv", 60, 1500),
+                ("seq", 60, 1500), ("conflict", 60, 1500), ("iso", 60, 1500), ("rollback", 60, 1500), ("patch", 40, 1000),
+                ("conflictpatch", 40, 1000), ("diff", 30, 800), ("hist", 30, 800), ("reload", 40, 1000),
+                ("marks", 40, 1000), ("marksinv", 60, 1500), ("isomarks", 40, 1000), ("textenc", 40, 1000),
+                ("grapheme", 30, 800), ("cursor", 40, 1000), ("cursortext", 40, 1000), ("ids", 40, 1000), ("migrate", 40, 1000),
+                ("isoconf", 40, 1000)]
+
+
+def c37(run):
+    run.cov["rule"] = ("(1) a catalogue of ~700 calls per replica with invalid / stale / foreign / extreme arguments (ids of "
+                       "unknown objects and actors, counters up to u64::MAX, indexes up to usize::MAX, wrong object and key "
+                       "kinds, reversed/empty/out-of-range mark ranges, cursors of other objects, unknown / duplicated / "
+                       "non-antichain / mixed heads for every *_at read, diff, fork_at, transaction_at, isolate, and the "
+                       "library's own diff() patches fed to hydrate::Value::apply_patches) on replicas reached by random "
+                       "programs; Trace_Args: never a panic, invalid arguments give an error or an empty result, the "
+                       "document still saves and loads; (2) every event of every other scenario family of this framework "
+                       "(24 families) must not have panicked; non-trivial = scenario with bad calls")
+    t = os.path.join(run.work, "badargs.ndjson")
+    drive(["badargs", run.seed, sizes(run, 25, 400), t])
+    run.validate("Trace_Args.tla", ["C37"], t, "badargs")
+    count_nontrivial(run, t, has_invalid_accepting)
+    for sc in scenarios(read_trace(t))[:1]:
+        run.sample([{k: v for k, v in e.items()} for e in sc if e.get('ev') == 'badcall'][:6])
+    for fam, nq, nt in C37_FAMILIES:
+        tf = os.path.join(run.work, f"{fam}.ndjson")
+        drive([fam, run.seed + 37, sizes(run, nq, nt), tf])
+        run.validate("Trace_Args.tla", ["C37"], tf, fam)
+
+
 def replay(run, path):
     """re-validate a recorded violating scenario"""
     from . import tlc_trace
@@ -736,6 +824,9 @@ REG = {
     "C29": ("model_checking", c29),
     "C08": ("model_checking", c08),
     "C24": ("model_checking", c24),
+    "C30": ("model_checking", c30),
+    "C37": ("exploration", c37),
+    "C40": ("model_checking", c40),
     "C25": ("model_checking", c25),
     "C26": ("model_checking", c26),
     "C09": ("model_checking", c09),
